@@ -287,9 +287,10 @@ class ExceptionTrace(object):
         self._render_solution(io, inspector)
 
     def _format_message(self, message, fmt):  # type: (str, str) -> str
-        if "<" in message:
+        if "<" in message or message.endswith("\\"):
             # The message is not markup: it is shown as it is, unstyled, because
-            # an escaped tag inside a styled text keeps its backslash
+            # an escaped tag inside a styled text keeps its backslash (and a
+            # backslash at the end of the message would escape the closing tag)
             return message.replace("<", "\\<")
 
         return fmt.format(message)
